@@ -1,4 +1,5 @@
 import Core
+import Algo
 set_option linter.unusedSectionVars false
 /-! # C07 — no memory errors, and limit overruns stop with a panic (PARTIAL: see DESIGN.md §7 C07)
 
@@ -98,6 +99,17 @@ theorem merge_keeps_indices_in_range (g h : G L D) (hg : MS g) (left right : Nat
 
 theorem mergeT_agrees (g h g' : G L D) (left right : Nat) (out : MergeOut) (hm : merge g h left right = some (g', out)) :
     mergeT g h left right = (g', some out) := mergeT_of_merge g h g' left right out hm
+
+/-- **a script too**: the graph satisfies the invariant after `deploy_to`, whether the script ran to its end, stopped at a
+    malformed command (`Err`) or at a call that panicked (Algo/ScriptTotal.lean; on a panic the state of the model is the
+    one before the panicking call, the real one is one `stepT` further: `any_call_keeps_indices_in_range`) -/
+theorem script_keeps_indices_in_range (text : List Char) (g : G Lb.Label Hx.Hex) (h : MS g) : MS (Ss.deploy text g).1.g :=
+  Ss.ms_deploy text g h
+
+/-- **and a slice**: the graph `slice`/`slice_some` returns is built from `empty` by `add`/`bind` calls, so it satisfies the
+    invariant; the source is not touched (`&self`) -/
+theorem slice_keeps_indices_in_range (g g' : G L D) (v : Nat) (p : Nat → Nat → L → Bool) (hc : 0 < cap g)
+    (hs : sliceSome g v p = some g') : MS g' := ms_sliceSome g g' v p hc hs
 
 /-! non-vacuity: a concrete abusive history (labels and data are `Nat`): the 17-th member panics after its tag was
     written; the handle goes on; puts on the half-joined vertex are counted for the group, so the group dies at the
